@@ -1,7 +1,7 @@
 CONSTANTS
-  CtorOrder <- CtorPinned
-  SetOrder <- SetPinned
-  DtorOrder <- DtorPinned
+  CtorOrder <- CtorBefore
+  SetOrder <- SetBefore
+  DtorOrder <- DtorCode
   MaxSig = 3
 SPECIFICATION Spec
 INVARIANT NotLost
